@@ -75,6 +75,10 @@ pub struct Sys(Box<dyn WorldDyn>);
 static COUNTER: AtomicU64 = AtomicU64::new(0);
 
 pub struct Domain {
+    /// whether /dev/shm is inspected for this domain (see `shm`)
+    pub scan_shm: bool,
+    /// result of the most recent scan of /dev/shm (used by `remove` instead of scanning again)
+    pub last_scan: std::cell::RefCell<Option<Vec<String>>>,
     pub root: String,
     pub prefix: String,
     pub tag: String,
@@ -82,7 +86,7 @@ pub struct Domain {
 }
 
 impl Domain {
-    pub fn new() -> Result<Domain, Fail> {
+    pub fn new(is_ipc: bool) -> Result<Domain, Fail> {
         use iceoryx2::prelude::*;
         let n = COUNTER.fetch_add(1, Ordering::Relaxed);
         let pid = std::process::id();
@@ -93,7 +97,7 @@ impl Domain {
         let mut config = Config::default();
         config.global.set_root_path(&Path::new(root.as_bytes()).map_err(|e| Fail::new("setup", "root_path", format!("{e:?}")))?);
         config.global.prefix = FileName::new(prefix.as_bytes()).map_err(|e| Fail::new("setup", "prefix", format!("{e:?}")))?;
-        Ok(Domain { root, prefix, tag, config })
+        Ok(Domain { scan_shm: is_ipc || n == 0, last_scan: std::cell::RefCell::new(None), root, prefix, tag, config })
     }
 
     /// every file system entry below the isolated root (relative paths, directories end with '/')
@@ -120,18 +124,16 @@ impl Domain {
         v
     }
 
-    /// names in /dev/shm that carry the unique tag of this domain
+    /// names in /dev/shm that carry the unique tag of this domain. /dev/shm is shared with everything
+    /// else on the machine (tens of thousands of entries are common), therefore raw readdir without
+    /// per-entry allocation; the local variants, which never use /dev/shm, are scanned only in the
+    /// first execution of every process.
     pub fn shm(&self) -> Vec<String> {
-        let mut v = Vec::new();
-        if let Ok(rd) = std::fs::read_dir("/dev/shm") {
-            for e in rd.flatten() {
-                let name = e.file_name().to_string_lossy().to_string();
-                if name.contains(&self.tag) {
-                    v.push(name);
-                }
-            }
+        if !self.scan_shm {
+            return Vec::new();
         }
-        v.sort();
+        let v = scan_shm(&self.tag);
+        *self.last_scan.borrow_mut() = Some(v.clone());
         v
     }
 
@@ -141,11 +143,20 @@ impl Domain {
     /// `<prefix>…node.<version>.global_mgmt` (created with `has_ownership(false)`,
     /// `iceoryx2/src/node/global_management_segment.rs`).
     pub fn leftovers(&self) -> Vec<String> {
+        self.leftovers_impl(true)
+    }
+
+    /// the file system part only (the shared-memory part was checked by an earlier `leftovers` call)
+    pub fn leftovers_fs_only(&self) -> Vec<String> {
+        self.leftovers_impl(false)
+    }
+
+    fn leftovers_impl(&self, with_shm: bool) -> Vec<String> {
         let nodes = format!("{}/", self.config.global.node.directory);
         let services = format!("{}/", self.config.global.service.directory);
         let mgmt_suffix = self.config.global.node.global_mgmt_suffix.to_string();
         let mut v: Vec<String> = self.files().into_iter().filter(|f| *f != nodes && *f != services).map(|f| format!("{}/{f}", self.root)).collect();
-        for s in self.shm() {
+        for s in if with_shm { self.shm() } else { Vec::new() } {
             let is_mgmt = s.ends_with(&mgmt_suffix) && s.contains("node.");
             if !is_mgmt {
                 v.push(format!("/dev/shm/{s}"));
@@ -183,17 +194,37 @@ impl Domain {
             .collect()
     }
 
-    /// `scan_shm`: the ipc variants leave the management segment behind by design; the local
-    /// variants never touch /dev/shm (checked once per execution by `leftovers`), so the directory
-    /// scan is skipped for them
-    pub fn remove(&self, scan_shm: bool) {
+    pub fn remove(&self, _is_ipc: bool) {
         let _ = std::fs::remove_dir_all(&self.root);
-        if scan_shm {
-            for s in self.shm() {
-                let _ = std::fs::remove_file(format!("/dev/shm/{s}"));
-            }
+        let known = self.last_scan.borrow_mut().take();
+        for s in known.unwrap_or_else(|| self.shm()) {
+            let _ = std::fs::remove_file(format!("/dev/shm/{s}"));
         }
     }
+}
+
+pub fn scan_shm(tag: &str) -> Vec<String> {
+    let mut v = Vec::new();
+    let tag = tag.as_bytes();
+    unsafe {
+        let d = libc::opendir(b"/dev/shm\0".as_ptr() as *const libc::c_char);
+        if d.is_null() {
+            return v;
+        }
+        loop {
+            let e = libc::readdir(d);
+            if e.is_null() {
+                break;
+            }
+            let name = std::ffi::CStr::from_ptr((*e).d_name.as_ptr()).to_bytes();
+            if name.len() >= tag.len() && name.windows(tag.len()).any(|w| w == tag) {
+                v.push(String::from_utf8_lossy(name).to_string());
+            }
+        }
+        libc::closedir(d);
+    }
+    v.sort();
+    v
 }
 
 // ---------------------------------------------------------------------------------------------
